@@ -202,21 +202,6 @@ def expected_reduce(P, S, opts, node_ind):
     return kept, newpar, below
 
 
-def mutation_target(P, kept, below, u):
-    """Where a mutation above input node u goes: the nearest retained node at or below u
-    on the (unique) lineage that carries chosen samples; None if no chosen sample
-    inherits from u here."""
-    if below[u] == 0:
-        return None
-    n = len(P)
-    while not kept[u]:
-        cs = [c for c in range(n) if P[c] == u and below[c] > 0]
-        if len(cs) != 1:
-            return "ambiguous"
-        u = cs[0]
-    return u
-
-
 def allele_of(P, site_muts, anc, s):
     """Allele of node s: the last mutation in table order on the path from s to its root."""
     on_path = set(path_up(P, s))
@@ -381,27 +366,56 @@ def oracle_simplify(case, obs):
                 fail("unreferenced-node", "output node %d (input %d) is neither a sample nor referenced by an edge" % (v, inv[v]))
                 break
     # ---- sites and mutations --------------------------------------------------------
-    exp_muts = []          # (input mutation id, output node)
-    for j, (site, node, der, par, t, md) in enumerate(tin["mutations"]):
-        pos = tin["sites"][site][0]
-        P = parent_map(in_edges, n, pos)
-        kept, newpar, below = expected_reduce(P, S, opts, node_ind)
-        tgt = mutation_target(P, kept, below, node)
-        if tgt is not None:
-            exp_muts.append((j, tgt))
-    site_ref = {tin["mutations"][j][0] for j, _ in exp_muts}
-    smap = ref_map(len(tin["sites"]), site_ref, opts["filter_sites"])
-    exp_sites = [tin["sites"][j] for j in range(len(smap)) if smap[j] != NULL]
-    if out["sites"] != exp_sites:
-        fail("filter-sites", "site table %r, expected %r" % (out["sites"], exp_sites))
-    mmap = {j: k for k, (j, _) in enumerate(exp_muts)}
-    exp_rows = []
-    for j, tgt in exp_muts:
-        site, node, der, par, t, md = tin["mutations"][j]
-        exp_rows.append([smap[site], nm[tgt] if tgt != "ambiguous" else "ambiguous", der,
-                         mmap.get(par, NULL) if par != NULL else NULL, t, md])
-    if out["mutations"] != exp_rows:
-        fail("mutations", "mutation table %r, expected %r" % (out["mutations"], exp_rows))
+    # What the property text demands: output sites are input sites (row preserved, order
+    # preserved); a site is removed iff filter_sites is on and no output mutation refers to
+    # it; output mutations are input mutations (row preserved, order preserved) sitting on
+    # a retained node at or below their original node, parents mapped.  WHICH node exactly
+    # is fixed by the Coq specification (correspondence), the genotype check below decides
+    # whether the chosen samples still see the same alleles.
+    in_pos = {st[0]: k for k, st in enumerate(tin["sites"])}
+    site_of_out = [in_pos.get(st[0], NULL) for st in out["sites"]]
+    if NULL in site_of_out or site_of_out != sorted(set(site_of_out)) or \
+            any(out["sites"][k] != tin["sites"][site_of_out[k]] for k in range(len(site_of_out))):
+        fail("site-rows", "output sites are not an order-preserving subset of the input site rows: %r" % (out["sites"],))
+    else:
+        referenced = {mu[0] for mu in out["mutations"]}
+        for k in range(len(out["sites"])):
+            if opts["filter_sites"] and k not in referenced:
+                fail("filter-sites", "site %d (input %d) kept although no mutation refers to it" % (k, site_of_out[k]))
+                break
+        if not opts["filter_sites"] and site_of_out != list(range(len(tin["sites"]))):
+            fail("filter-sites", "site table changed although filter_sites=False")
+        smap_o = {si: k for k, si in enumerate(site_of_out)}
+        md_in = {mu[5][:2]: k for k, mu in enumerate(tin["mutations"])}
+        prev, mut_of_out, bad = -1, [], None
+        for k, (site, node, der, par, t, md) in enumerate(out["mutations"]):
+            jm = md_in.get(md[:2], NULL) if len(md_in) == len(tin["mutations"]) else NULL
+            if jm == NULL or jm <= prev:
+                bad = "output mutation %d is not an input mutation / order changed" % k
+                break
+            prev = jm
+            mut_of_out.append(jm)
+            isite, inode, ider, ipar, it, imd = tin["mutations"][jm]
+            if (der, t, md) != (ider, it, imd) or smap_o.get(isite) != site:
+                bad = "output mutation %d (input %d): row changed (site/derived/time/metadata)" % (k, jm)
+                break
+            pos = tin["sites"][isite][0]
+            P = parent_map(in_edges, n, pos)
+            kept, newpar, below = expected_reduce(P, S, opts, node_ind)
+            u2 = inv[node] if 0 <= node < m else NULL
+            if u2 == NULL or not kept[u2] or inode not in path_up(P, u2):
+                bad = "output mutation %d (input %d above node %d) sits on output node %d (input %s): not a retained node at or below" % (k, jm, inode, node, u2)
+                break
+            # parent: the nearest retained ancestor mutation in the input parent chain
+            q = ipar
+            while q != NULL and q not in mut_of_out:
+                q = tin["mutations"][q][3]
+            want = mut_of_out.index(q) if q != NULL else NULL
+            if par != want:
+                bad = "output mutation %d (input %d): parent %d, expected %d" % (k, jm, par, want)
+                break
+        if bad:
+            fail("mutations", bad)
     # genotypes: every chosen sample has the same allele at every retained site
     out_site_by_pos = {s[0]: j for j, s in enumerate(out["sites"])}
     geno_bad = False
@@ -614,7 +628,7 @@ class Simplify(Family):
     prelude = PRELUDE
 
     def counts(self, tier):
-        return 1500 if tier == "quick" else 40000
+        return 2000 if tier == "quick" else 40000
 
     def generate(self, rng, tier):
         for _ in range(self.counts(tier)):
@@ -653,7 +667,7 @@ class Small(Simplify):
     name = "small"
 
     def generate(self, rng, tier):
-        plan = [(5, 24), (6, 6), (8, 2)] if tier == "quick" else [(4, 150), (5, 150), (6, 100), (8, 60)]
+        plan = [(5, 30), (6, 8), (8, 3)] if tier == "quick" else [(4, 150), (5, 150), (6, 100), (8, 60)]
         for max_nodes, count in plan:
             for _ in range(count):
                 d = clean_desc(gen_ts.random_desc(rng, max_nodes=max_nodes, max_L=3, max_sites=3, max_muts=3))
